@@ -20,6 +20,8 @@
 #include <pthread.h>
 #include <signal.h>
 #include <stdarg.h>
+#include <sys/mman.h>
+#include <signal.h>
 #include <stdio.h>
 #include <stdlib.h>
 #include <string.h>
@@ -166,6 +168,35 @@ static void* worker(void* arg)
         int alive = fcntl(fd, F_GETFD) != -1;
         int cr = close(fd);
         if (!alive || cr != 0) emit(t, "{\"e\":\"FdLost\",\"alive\":%d,\"close\":%d}\n", alive, cr);
+      }
+      else if (!strcmp(o->mode, "bus"))
+      {
+        /* a scan that takes a memory fault: a private file of two pages is mapped, then cut to one page; reading the second
+           page raises SIGBUS inside the scan, which must end with ERROR_COULD_NOT_MAP_FILE and leave the calling thread's
+           signal mask as it was (SigHandler.tla, Fault) */
+        long ps = sysconf(_SC_PAGESIZE);
+        char path[600];
+        snprintf(path, sizeof path, "%s.bus.%lx", datas[o->did].path, (unsigned long) pthread_self());
+        int fd = open(path, O_RDWR | O_CREAT | O_TRUNC, 0600);
+        ret = -1;
+        if (fd >= 0 && ftruncate(fd, 2 * ps) == 0)
+        {
+          if (pwrite(fd, datas[o->did].p, datas[o->did].n < (size_t) ps ? datas[o->did].n : (size_t) ps, 0) < 0) {}
+          void* m = mmap(NULL, 2 * ps, PROT_READ, MAP_SHARED, fd, 0);
+          if (m != MAP_FAILED && ftruncate(fd, ps) == 0)
+          {
+            sigset_t before, after;
+            pthread_sigmask(SIG_SETMASK, NULL, &before);
+            ret = yr_scanner_scan_mem(sc, (const uint8_t*) m, 2 * ps);
+            pthread_sigmask(SIG_SETMASK, NULL, &after);
+            int changed = 0;
+            for (int sg = 1; sg < 32; sg++) if (sigismember(&before, sg) != sigismember(&after, sg)) changed++;
+            emit(t, "{\"e\":\"BusScan\",\"ret\":%d,\"mask_changed\":%s}\n", ret, changed ? "true" : "false");
+            munmap(m, 2 * ps);
+          }
+        }
+        if (fd >= 0) close(fd);
+        unlink(path);
       }
       else ret = yr_rules_scan_mem(rules, datas[o->did].p, datas[o->did].n, 0, scan_cb, t, o->timeout);
       emit(t, "{\"e\":\"ScanRet\",\"ret\":%d,\"ncb\":%d}\n", ret, t->cb_count);
